@@ -78,6 +78,9 @@ def corr_phase(prop, spec, tier, seed, res, budget_scale=1):
         pairs = corr.run_pair(part["domain"], [c for _, c in cases], harness_extra=part.get("harness_extra"),
                               timeout=part.get("timeout", 600), jobs=part.get("jobs", 8), chunk=part.get("chunk", 64))
         for (origin, lines), (impl, model) in zip(cases, pairs):
+            if impl is not None and len(impl) > 4000:
+                stats["oversize_skipped"] = stats.get("oversize_skipped", 0) + 1
+                continue
             stats["evaluations"] += 1
             for l in lines:
                 dist["op:" + l.split()[0]] += 1
@@ -235,6 +238,8 @@ def run_check(prop, spec, tier, seed):
     cov["divergences"] = len(divergences)
     cov["samples"] = stats["samples"]
     cov["distribution"] = stats["distribution"]
+    if "oversize_skipped" in stats:
+        cov["oversize_skipped"] = stats["oversize_skipped"]
     if "search_evaluations" in stats:
         cov["search_evaluations"] = stats["search_evaluations"]
     cov["known_findings_reported"] = res.known_lines
